@@ -66,7 +66,7 @@ fn main() {
     let mut out: Box<dyn Write> = if outp == "-" {
         Box::new(std::io::BufWriter::new(std::io::stdout()))
     } else {
-        Box::new(std::io::BufWriter::new(std::fs::File::create(&outp).unwrap()))
+        Box::new(std::io::LineWriter::new(std::fs::File::create(&outp).unwrap()))
     };
     match args[1].as_str() {
         "acc" => acc::run(seed, count, maxn, &mode, &mut out),
